@@ -172,6 +172,11 @@ func (c *Conn) Send(b []byte) { c.in = append(c.in, b...) }
 //go:norace
 func (c *Conn) PeerClose() { c.peerClosed = true }
 
+// PeerClosed reports whether the peer has closed its side.
+//
+//go:norace
+func (c *Conn) PeerClosed() bool { return c.peerClosed }
+
 // Pending returns unread inbound byte count.
 //
 //go:norace
